@@ -4,6 +4,7 @@ CONSTANTS
   Keys = {"k1"}
   Vals = {"a", "b"}
   KvChecksNonce = TRUE
+  FailedCreateConsumesNonce = TRUE
   EmptyTxInvalid = TRUE
   AdminBoundsChecked = TRUE
   TxSet <- TxM
@@ -12,5 +13,5 @@ CONSTANTS
 VIEW view
 CONSTRAINT Bound
 INVARIANTS TypeOK Total AtMostOnce
-PROPERTIES AppliedOnlyIfNonceMatches AppliedIfNonceMatches NonceIncrementsByOne InvalidIsNoOp NonceMonotone
+PROPERTIES AppliedOnlyIfNonceMatches AppliedIfNonceMatches NonceIncrementsByOne FailedExecutionConsumesNonce InvalidIsNoOp NonceMonotone
 CHECK_DEADLOCK FALSE
